@@ -148,5 +148,8 @@ def run(check, ctx):
             rule="K", what="T = Hash(seed || I2OSP(0,4)) || Hash(seed || I2OSP(1,4)) ... "
             "truncated to maskLen (ceil(maskLen/hLen) blocks)", cite="RFC 8017 B.2.1 MGF1"))
     check.floor("G", 6)
-    check.undecided.append("the accept/reject decision over all encoded-message byte patterns "
-                           "(branch-free logic in pkcs1_decode.c); round-trip equality")
+    # the branch-free native decoders, region by region
+    from . import c_pkcs1
+    c_pkcs1.pkcs1_tables(check, ctx)
+    check.undecided.append("the accept/reject decision for encoded messages with several simultaneous defects or "
+                           "geometries outside the table; timing; round-trip equality")
